@@ -20,11 +20,18 @@ InShard(r) == (r.o[1] + r.n[1] + r.v + r.ttl + r.t) % NShards = Shard
 
 \* a type without embedded names: the name case variant does not exist
 SymNoName == [Sym EXCEPT ![4] = [Sym[1] EXCEPT !.ttl = 3]]
-ListOfN(q, names) == [i \in 1..Len(q) |-> ToText(IF names THEN Sym[q[i]] ELSE SymNoName[q[i]])]
+ListOfN(q, names, sh) == [i \in 1..Len(q) |-> ToText(WithOwner(IF names THEN Sym[q[i]] ELSE SymNoName[q[i]], sh))]
+
+\* Mode "octets": names that differ in one octet c / c XOR 0x20, in the owner (w = 1) or in an embedded name (w = 2)
+Partner(c) == IF (c \div 32) % 2 = 0 THEN c + 32 ELSE c - 32
+OctRec(c, w) == [t |-> 1, c |-> 1, o |-> IF w = 1 THEN <<120, c, 121>> ELSE <<97>>, ttl |-> 1,
+                 n |-> IF w = 2 THEN <<120, c, 121>> ELSE <<120>>, v |-> 0]
 
 GInit == \/ Mode = "pairs"   /\ \E a \in Recs, b \in Recs : x = << a, b >> /\ InShard(a)
          \/ Mode = "triples" /\ x \in SmallRecs \X SmallRecs \X SmallRecs /\ InShard(x[1])
-         \/ Mode = "lists"   /\ \E q \in UNION { [1..k -> 1..Len(Sym)] : k \in 0..N }, names \in BOOLEAN : x = << q, names >>
+         \/ Mode = "lists"   /\ \E q \in UNION { [1..k -> 1..Len(Sym)] : k \in 0..N }, names \in BOOLEAN, sh \in 1..Len(Shapes) :
+                                   x = << q, names, sh >> /\ (sh = 1 \/ Len(q) >= 2)
+         \/ Mode = "octets"  /\ \E c \in 0..255, w \in 1..2 : x = << c, w >>
 GNext == UNCHANGED x
 
 Out ==
@@ -32,7 +39,13 @@ Out ==
     [] Mode = "triples" -> Emit([kind |-> "triple", a |-> Code(x[1]), b |-> Code(x[2]), c |-> Code(x[3]),
                                  ab |-> D(x[1], x[2]), bc |-> D(x[2], x[3]), ac |-> D(x[1], x[3])])
     [] Mode = "lists" ->
-         LET d == DedupIdx(ListOfN(x[1], x[2])) IN
-         Emit([kind |-> "list", q |-> x[1], names |-> x[2],
+         LET d == DedupIdx(ListOfN(x[1], x[2], x[3])) IN
+         Emit([kind |-> "list", q |-> x[1], names |-> x[2], shape |-> x[3],
+               owners |-> [k \in 1..3 |-> Present(<< Shapes[x[3]][k] >>)],
                keep |-> [k \in 1..Len(d) |-> d[k].i], ttls |-> [k \in 1..Len(d) |-> d[k].ttl[2]]])
+    [] Mode = "octets" ->
+         LET a == OctRec(x[1], x[2])  b == OctRec(Partner(x[1]), x[2]) IN
+         Emit([kind |-> "octet", c |-> x[1], w |-> x[2],
+               ta |-> Present(<< <<120, x[1], 121>> >>), tb |-> Present(<< <<120, Partner(x[1]), 121>> >>),
+               dup |-> D(a, b)])
 =============================================================================
